@@ -11,7 +11,10 @@ TECHNIQUE = ('path-sensitive save/restore dataflow on the directive-tracking vis
              'path conditions (pyflow) of default stores evaluated as truth tables over the complete value domain of the directive; def-use agreement of the compared and the updated mapping of the decorator filter; '
              'ordered-writer extraction for the layered module directives, for copy_inherited_directives and for the header-comment parser; decision tables (checker-owned evaluator) of the boolean '
              'value parser over the string partition its comparisons induce and of check_directive_scope over Options.directive_scopes x the scope vocabulary; guard dominance of the contents store; '
-             'iteration order vs merge policy of the decorator stack; save/restore typestate of generator context managers')
+             'iteration order vs merge policy of the decorator stack; save/restore typestate of generator context managers; '
+             'reader/writer agreement of directive reads in tree visitors (origin of the scope object by def-use through locals, visitor state, helper parameters and their call sites; '
+             'the set of scopes a directive can be set in from Options.directive_scopes); path enumeration of ModuleNode.merge_in over symbolic values (guard facts vs wrapped / unwrapped tree), '
+             'pairing of the (tree, scope) arguments at its call sites')
 DECIDES = ('V3: InterpretCompilerDirectives.visit_with_directives and CythonTransform.visit_CompilerDirectivesMixin restore the saved directives on every normal exit; '
            'TABKEYS: keys of directive_scopes, directive_types and immediate_decorator_directives are known directives; L4: every directive key read anywhere is known; '
            'L5: every kind of directive value reachable through parse_directive_list is parsed or rejected with ValueError; '
@@ -28,10 +31,20 @@ DECIDES = ('V3: InterpretCompilerDirectives.visit_with_directives and CythonTran
            'C41-CONTENTS: a directive reaches the mapping for the *contents* of a decorated object only on paths that exclude Options.immediate_decorator_directives, and the node wrapped around the '
            'body carries the mapping built from **contents_directives; C41-INHERIT: copy_inherited_directives returns a private copy of the outer mapping overridden by the new directives; '
            'C41-HEADER: every parsed `# cython:` line is merged into the mapping p_compiler_directive_comments returns; C41-DECORDER: bottom-up iteration over the decorators with last-wins merging '
-           '(or the mirror image): the decorator written first wins; C41-CTX: generator context managers that rebind an attribute of their argument (apply_directives: obj.directives) restore it after the yield.')
+           '(or the mirror image): the decorator written first wins; C41-CTX: generator context managers that rebind an attribute of their argument (apply_directives: obj.directives) restore it after the yield; '
+           'C41-ENVREAD (rules/s4C41.py): a constant-key directive read in a method of a tree visitor / transform (Visitor.TreeVisitor subclasses) that goes through an enclosing environment '
+           '(`env.directives`, self.current_env(), env_stack[-1], a scope parameter whose callers pass one of these, a local alias of the mapping, or the mapping handed as a whole to a resolved '
+           'helper that reads the key) names a directive that Options.directive_scopes confines to scopes without "with statement"; reads through self.current_directives, through the visited '
+           'node\'s own scope (node.scope / node.local_scope, also when stored in visitor state in the same method) or the visited directives node itself are exact; '
+           'C41-MERGE: on every path of ModuleNode.merge_in the foreign tree reaches a statement list of the receiver either wrapped in a CompilerDirectivesNode whose directives are (a copy of) the '
+           'foreign scope\'s mapping and whose body is the foreign tree, or behind a fact that the foreign scope\'s directives equal (or are) the receiver\'s; every other CompilerDirectivesNode built in '
+           'ModuleNode takes body and directives from the same side; every caller of merge_in passes a tree with the scope it was unpacked / taken from, never the scope of the receiver.')
 NOT_DECIDED = ('the precedence of header / command line / cythonize options as far as it is established outside the sites above (CmdLine parsing, Dependencies merging per-module options, '
                'accumulation of repeated -X options), the meaning of repeated list-typed directives (accumulate vs replace), which of warning / error a repeated header directive gets, '
-               'the scope literal each visit_* handler passes to check_directive_scope, non-boolean value parsers (int / one_of / encoding names), and everything observed at run time.')
+               'the scope literal each visit_* handler passes to check_directive_scope, non-boolean value parsers (int / one_of / encoding names), and everything observed at run time; '
+               'C41-ENVREAD does not decide reads with a computed key, a scope-level read of a directive confined to function scope when the scope is the one ENCLOSING a visited def (its decorators are missed), '
+               'whole mappings inherited from a scope (IterationTransform._transform_indexable_iteration builds the directives of its bounds-check-free target assignment from env.directives: listed as info), '
+               'nor SimpleAssignmentTypeInferer (infer_types is read per scope by design); C41-MERGE does not decide other ways code could travel between modules (fused / utility code copied by TreeFragment).')
 
 
 MUTATIONS = [
@@ -49,6 +62,15 @@ MUTATIONS = [
     ('Cython/Compiler/ParseTreeTransforms.py', 'visit_ModuleNode: `self.directives.update(node.directive_comments)` -> loop with setdefault', 'C41-LAYER: caught'),
     ('Cython/Compiler/ParseTreeTransforms.py', 'visit_ModuleNode: the update of the header comments removed', 'C41-LAYER: caught (missing layer)'),
     # --- fourth round: see /verif/mutants/C41/*/meta.json (29 mutants: 20 breaking, 9 behaviour preserving), replayed by the thorough tier
+    # --- sixth round (seeds C41g, C41h): /verif/mutants/C41/{envread_*,merge_*}/meta.json (19 breaking: all reported; 15 behaviour preserving: silent)
+    ('Cython/Compiler/ModuleNode.py', 'seed C41g: merge_in wraps the merged .pxd tree in self.scope.directives', 'C41-MERGE wrapper:directives: caught'),
+    ('Cython/Compiler/ModuleNode.py', 'merge_in: guard inverted / compares self with self / restricted to stage == "utility" / wrapper bound to an unused local / wrapping moved behind the append', 'C41-MERGE unwrapped: caught'),
+    ('Cython/Compiler/Pipeline.py', 'inject_pxd_code_stage passes module_node.scope as the scope of the merged tree', 'C41-MERGE caller: caught'),
+    ('Cython/Compiler/ParseTreeTransforms.py', "seed C41h: _synthesize_assignment reads binding from env.directives (also: genv, self.current_env(), a local alias, a helper parameter, a module-level helper given env.directives, a key held in a local)", 'C41-ENVREAD: caught'),
+    ('Cython/Compiler/Optimize.py', 'SwitchTransform / InlineDefNodeCalls read optimize.* from self.current_env().directives', 'C41-ENVREAD: caught'),
+    ('Cython/Compiler/AutoDocTransforms.py', 'EmbedSignature.visit_DefNode reads embedsignature from node.entry.scope.directives', 'C41-ENVREAD: caught'),
+    ('Cython/Compiler/ModuleNode.py', 'merge_in: aliases / flag local / if-else with a new local / helper method with early return / unconditional wrapper / `is not` guard / .copy() of the foreign mapping', None),
+    ('Cython/Compiler/FlowControl.py', 'check_definitions(self.flow, self.env.directives) with self.env = node.local_scope set in the same method (own scope)', None),
     # behaviour preserving (all silent)
     ('Cython/Compiler/Options.py', "configure_language_defaults: early-return form, local alias `d = self.compiler_directives`, `'binding' not in d or d['binding'] is None`", None),
     ('Cython/Compiler/Options.py', "configure_language_defaults: `self.compiler_directives.setdefault('binding', True)` (None is not an explicit value of binding)", None),
